@@ -207,10 +207,13 @@ pub struct Link {
     pub auto_pong: bool,
     /// (side, length) of a message larger than anything a simulated case can legitimately produce: the run is cut short
     pub oversize: Option<(Side, usize)>,
+    /// bound for one message of this case: everything its scripts can write, relay or send, plus MAX_SIM_MESSAGE of slack
+    pub max_message: usize,
 }
 
-/// No simulated case writes, relays or sends more than ~200 KB in total; a single message beyond this bound can only come from
-/// an endpoint that puts bytes on the wire which nobody wrote (and would make the run take minutes)
+/// Slack of the per-case message bound (`Link::max_message` = all bytes the case's scripts can write, relay or send + this): a
+/// single message beyond the bound can only come from an endpoint that puts bytes on the wire which nobody wrote (and would
+/// make the run take minutes)
 pub const MAX_SIM_MESSAGE: usize = 1 << 20;
 
 #[derive(Clone)]
@@ -218,7 +221,7 @@ pub struct SharedLink(pub Arc<Mutex<Link>>);
 
 impl SharedLink {
     pub fn new(cap: [Option<usize>; 2]) -> Self {
-        SharedLink(Arc::new(Mutex::new(Link { dir: [Dir::new(cap[0]), Dir::new(cap[1])], auto_pong: true, oversize: None })))
+        SharedLink(Arc::new(Mutex::new(Link { dir: [Dir::new(cap[0]), Dir::new(cap[1])], auto_pong: true, oversize: None, max_message: MAX_SIM_MESSAGE })))
     }
 }
 
@@ -254,6 +257,7 @@ impl WebSocket for SimWs {
 
     fn start_send_unpin(&mut self, item: Message) -> Result<(), penguin_mux::Error> {
         let mut l = self.link.0.lock().unwrap();
+        let max_message = l.max_message;
         let d = &mut l.dir[self.side];
         if d.sink_err {
             self.log.push(Ev::SinkErrorSeen { side: self.side });
@@ -263,7 +267,7 @@ impl WebSocket for SimWs {
             return Err(ws_err("sink already closed"));
         }
         if let Message::Binary(b) = &item {
-            if b.len() > MAX_SIM_MESSAGE {
+            if b.len() > max_message {
                 let len = b.len();
                 self.log.push(Ev::Fault(format!("side {} sent a message of {len} bytes, more than all data ever written in this case: run cut short", self.side)));
                 l.oversize = Some((self.side, len));
